@@ -23,6 +23,16 @@ impl<'a> Src<'a> {
         self.words
     }
 
+    /// A second reader at the same position (to decode the same choices twice, e.g. under two
+    /// naming schemes).
+    pub fn fork(&self) -> Src<'a> {
+        Src { words: self.words, pos: self.pos, direct: self.direct }
+    }
+
+    pub fn advance_to(&mut self, pos: usize) {
+        self.pos = self.pos.max(pos);
+    }
+
     pub fn is_direct(&self) -> bool {
         self.direct
     }
